@@ -15,7 +15,7 @@ VERIF = os.path.dirname(os.path.dirname(os.path.abspath(__file__)))
 REPO = os.environ.get("VERIF_REPO", "/repo")
 BUILD_DIR = os.path.join(VERIF, "build")
 # evidence/replay of runs aimed at a scratch copy (self-test) never overwrite the real ones
-_SCRATCH = os.path.realpath(REPO) != "/repo" or bool(os.environ.get("VERIF_ATT_DECLS"))
+_SCRATCH = os.path.realpath(REPO) != "/repo" or bool(os.environ.get("VERIF_ATT_DECLS")) or bool(os.environ.get("VERIF_PREFLIGHT_CACHE"))
 EVIDENCE_DIR = os.path.join(VERIF, "build", "scratch_evidence") if _SCRATCH else os.path.join(VERIF, "evidence")
 REPLAY_DIR = os.path.join(VERIF, "build", "scratch_replay") if _SCRATCH else os.path.join(VERIF, "replay")
 JOBS = int(os.environ.get("VERIF_JOBS", "16"))
